@@ -114,6 +114,38 @@ PROPS.update({
  },
 })
 
+
+PROPS.update({
+ "C10": {
+  "level": "fault_enumeration", "design_ref": "DESIGN.md §5 P-C10",
+  "technique": "deterministic simulation with crash injection: the approve script is cut after every prefix (incl. between the halves of a joined line) on the device model, the partially changed device is printed in device spelling and the real tool approves again; plus live sessions cut by a dropped connection (and, on IOS, the reload guard firing) followed by a second live session",
+  "level_text": "For every sampled pair ALL cut positions of the script are enumerated; the second approve must be accepted, executable, converge to the target's canonical view, and a third compare must be empty. Sampled pairs, exhaustive cuts per pair.",
+  "level_note": "ASA and IOS in this tree. Trusts node model and canonical view.",
+  "rule": "evaluations = (pair, cut) resumptions; non-trivial = pair with non-empty script; distinct = hash of texts",
+  "quick": B(3000, 50), "thorough": B(150000, 1200),
+  "real": REAL_PLAN + ["pkg/doapprove, pkg/console (live cuts)"], "stubs": STUB_PLAN + STUB_LIVE, "assumptions": ASSUME_LIVE, "min_nontrivial": 50,
+ },
+ "C16": {
+  "level": "exploration", "design_ref": "DESIGN.md §5 P-C16",
+  "technique": "deterministic simulation of the hash-map iteration schedule: the harness is built against a scratch copy of the repository in which a go/packages rewriter routes every map range / maps.Keys / maps.Values through a seam; each input is planned under ascending, descending and seeded shuffled schedules and stdout, exit status and WARNING/ERROR lines must be byte-identical; a failing input is re-run permuting one site at a time to name the culprit function",
+  "level_text": "Inputs: every (DEVICE, NETSPOC) pair of the repository's test data for all five device types plus generated tie-heavy ASA/IOS pairs (duplicated / split identical object-groups). K=6 (quick) or 12 (thorough) schedules per input.",
+  "level_note": "Sources of nondeterminism other than map iteration are not permuted (the tool has no goroutines of its own, no randomness, no clock in planning). Generated tie inputs exist for ASA/IOS only; NSX / PAN-OS / Linux rely on the repository's pairs.",
+  "rule": "evaluations = planning runs under a permuted schedule; non-trivial = every input (>=1 map site with >1 element); distinct = hash of input texts",
+  "quick": B(3000, 50), "thorough": B(200000, 900),
+  "real": ["pkg/drc", "pkg/device (CompareFiles)", "pkg/cisco", "pkg/asa", "pkg/ios", "pkg/linux", "pkg/panos", "pkg/nsx (all compiled from the rewritten scratch copy)"],
+  "stubs": ["map iteration order: verifmap seam inserted by tools/maporder"], "assumptions": ["the rewrite preserves semantics: the repository's own suite passes on the rewritten copy under ascending order (checked while building this)"], "min_nontrivial": 50,
+ },
+ "C20": {
+  "level": "fault_enumeration", "design_ref": "DESIGN.md §5 P-C20",
+  "technique": "fault injection on stored inputs: every device / code / ipv6 / raw / info file of the repository's test data is corrupted line by line (word-prefix truncation, token deletion, duplication, swap, indent +-1, empty, garbage, unreadable) and the real drc planning entry point is run under recover with a hang watchdog; damaged status files are fed to the real missing-approve binary",
+  "level_text": "The family of the statement is enumerated deterministically: thorough = the whole family (exhaustive: true unless stopped by time), quick = a seeded 1/20 slice. Oracle: exit status 0 or 1, a message on 1, no panic, no hang.",
+  "level_note": "In-process call of drc.Main under recover stands for the binary (a runtime panic there is exit status 2 of the real binary).",
+  "rule": "evaluations = corrupted inputs run; non-trivial = each (test case, file, mutation); distinct = hash of those",
+  "quick": B(1, 100), "thorough": B(1, 1500),
+  "real": ["pkg/drc", "pkg/device", "all five device packages", "cmd/missing-approve (real binary)"], "stubs": [], "assumptions": [], "min_nontrivial": 50,
+ },
+})
+
 # Properties without a registered check: id -> reason.
 NOT_CLAIMED = {
 }
